@@ -209,6 +209,8 @@ class Walker:
         self.frames = 0                                     # > 0 while walking a helper's body
         self.returned = FALSE                               # inside a helper read in statement position: the conditions under which it returned
         self.before = set()                                 # (shape A, shape B): in some block, a statement doing A stands before a statement doing B
+        self.ret_values: List = []                          # inside a helper read in statement position: (condition, returned expression, its frame's normaliser, statement)
+        self.valflow: Dict = {}                             # id(assignment statement) -> {target name: [(condition, truth formula of the value returned on that path)]}
         self.sites: List[Tuple[str, ast.AST, tuple]] = []      # (shape, statement, formula)
         self.first_pos: Dict[str, Tuple[int, int]] = {}
         self.epoch = 0                                      # advanced by every action site: a guard evaluated again after an action is another atom
@@ -261,7 +263,22 @@ class Walker:
             out.append(a if p else f_not(a))
         return f_and(*out)
 
+    def _truth(self, v, at) -> tuple:
+        """the formula of `bool(v)` for a value a helper returns (evaluated in the helper's frame, which is the current one)"""
+        if v is None or (isinstance(v, ast.Constant) and not v.value):
+            return FALSE
+        if isinstance(v, ast.Constant):
+            return TRUE
+        if isinstance(v, (ast.List, ast.Tuple, ast.Set, ast.Dict)):
+            return TRUE if (getattr(v, "elts", None) or getattr(v, "keys", None)) else FALSE
+        return self.formula(v, at if at is not None else v)
+
     def formula(self, e: ast.AST, at, depth=0) -> tuple:
+        if isinstance(e, ast.Name) and e.id in self.nm.locdefs and self.valflow:
+            ents = self.nm.reaching(e.id, at)
+            if len(ents) == 1 and ents[0][2] is not None and id(ents[0][2]) in self.valflow and e.id in self.valflow[id(ents[0][2])]:
+                # the local holds what a helper (read in place) returned: true exactly on the helper's paths that return something true
+                return f_or(*[f_and(c_, t_) for (c_, t_) in self.valflow[id(ents[0][2])][e.id]])
         if isinstance(e, ast.UnaryOp) and isinstance(e.op, ast.Not):
             return f_not(self.formula(e.operand, at, depth))
         if isinstance(e, ast.BoolOp):
@@ -378,6 +395,7 @@ class Walker:
                     # a `return` of a helper read in statement position ends the helper, not the function
                     self.add_sites(ast.Expr(value=st.value) if st.value is not None else ast.Pass(), st, cur) if st.value is not None else None
                     self.returned = f_or(self.returned, cur)
+                    self.ret_values.append((cur, st.value, self.nm, st))
                     cur = FALSE
                     continue
                 self.add_sites(st, st, cur)
@@ -413,16 +431,40 @@ class Walker:
         # what the arguments evaluate is still evaluated here
         for a in list(call.args) + [k.value for k in call.keywords]:
             self.add_sites(a, st, cur)
-        saved = (self.f, self.nm, self.returned, self.returns_are_values)
+        saved = (self.f, self.nm, self.returned, self.returns_are_values, self.ret_values)
         self.f, self.nm = h, self.norm_fn(h, call)
         self.frames += 1
-        self.returned, self.returns_are_values = FALSE, not as_return
+        self.returned, self.returns_are_values, self.ret_values = FALSE, not as_return, []
         try:
             out = self.block(h.node.body, cur)
             done = f_or(out, self.returned)
+            if isinstance(st, ast.Assign) and len(st.targets) == 1:
+                # what the helper returns on each of its paths flows into the caller's local(s): `x = self._h(...)`, `a, b = self._h(...)`
+                tg = st.targets[0]
+                names = [tg.id] if isinstance(tg, ast.Name) else ([e.id if isinstance(e, ast.Name) else None for e in tg.elts] if isinstance(tg, ast.Tuple) else [])
+                flows = {n: [] for n in names if n}
+                usable = bool(flows)
+                for (c_, v, nm_, rst) in self.ret_values + ([(out, None, self.nm, None)] if out != FALSE else []):
+                    for i, n in enumerate(names):
+                        if not n:
+                            continue
+                        if isinstance(tg, ast.Tuple):
+                            if isinstance(v, ast.Tuple) and len(v.elts) == len(names):
+                                vv = v.elts[i]
+                            else:
+                                usable = False
+                                continue
+                        else:
+                            vv = v
+                        t_ = self._truth(vv, rst)
+                        if any("|" in a and a.startswith(("DEF(", "AGAIN(DEF(")) or ("DEF('" in a and " | " in a) for a in atoms_of(t_)):
+                            usable = False      # the value is a local with several definitions: its description depends on how the tails are written
+                        flows[n].append((c_, t_))
+                if usable:
+                    self.valflow[id(st)] = flows
         finally:
             self.frames -= 1
-            self.f, self.nm, self.returned, self.returns_are_values = saved
+            self.f, self.nm, self.returned, self.returns_are_values, self.ret_values = saved
         if isinstance(st, (ast.Assign, ast.AnnAssign)):
             # the assignment itself (a store to an attribute / item) is a site of the caller
             self.skip_calls.add(id(call))
